@@ -933,6 +933,17 @@ def real_time_script(rng, n_late=120, n_early=3000, first_id=930):
             out.append({"op": "poll", "id": a, "ch": rng.choice(chans)})
             if rng.random() < 0.3:
                 out.append({"op": "poll", "id": a, "ch": rng.choice(chans)})      # nothing can be pending any more ... on that channel or is overdue on the other
+    # part A': timeout 1 ms, the caller polls in a tight loop until the value arrives (`spin`): the clock is
+    # read around the moment the timeout expires, which no scripted time step can arrange
+    c = first_id + 2
+    ch = rng.randrange(16)
+    out.append({"op": "new", "id": c, "k": "poll", "to": 1})
+    out.append({"op": "feed", "id": c, "m": [176 + ch, 99, 3]})
+    out.append({"op": "feed", "id": c, "m": [176 + ch, 98, 37]})
+    for i in range(n_late):
+        out.append({"op": "feed", "id": c, "m": [176 + ch, 6, i % 128]})
+        out.append({"op": "tick", "id": c, "dt": 1})
+        out.append({"op": "spin", "id": c, "ch": ch, "max_ms": 3000})
     out.append({"op": "new", "id": b, "k": "poll", "to": 600000})
     tr = Traffic(rng, "poll", pick_chans(rng))
     for _ in range(n_early):
